@@ -581,7 +581,7 @@ def run_adaptive_client(ctx, env, syms, case):
 def run(ctx):
     si, sn = ctx.shard or (0, 1)
     quick = ctx.tier == 'quick'
-    L = 3 if quick else 4
+    L = 3 if quick else 5
     ctx.rule = ('all sequences of <= %d authentication lines over a %d-symbol alphabet (every mechanism with no/valid/'
                 'bogus response, right and wrong cookie answers computed from the live challenge, BEGIN, CANCEL, ERROR, '
                 'NEGOTIATE_UNIX_FD, junk, empty) against the real BusProtocol, each also re-fed coalesced / byte-wise / '
